@@ -19,6 +19,7 @@ import (
 	"fmt"
 	"go/ast"
 	"go/token"
+	"regexp"
 	"sort"
 	"strings"
 )
@@ -92,6 +93,7 @@ type translator struct {
 	consts  map[string]string
 	funs    map[string]*tfun // by recv.name
 	used    map[string]map[string]bool
+	lifts   [][2]string    // (callee structure key, caller structure key): the caller's structure includes the callee's fields
 	imeth   map[string]gty // result type of the argument-less methods of the package's interfaces, by method name
 }
 
@@ -206,6 +208,7 @@ func newTranslator(p *pkg, gen string) *translator {
 }
 
 type env struct {
+	rangeElem    map[string]string // while a `range` body is translated: source text -> the bound element variable
 	pendingMoves []string
 	t            *translator
 	f            *tfun
@@ -271,6 +274,9 @@ func unify(a, b gty) gty {
 }
 
 func (e *env) expr(x ast.Expr) (string, gty) {
+	if v, ok := e.rangeElem[e.t.p.str(x)]; ok {
+		return v, tInt
+	}
 	if in, ok := e.f.inputs[e.t.p.str(x)]; ok {
 		name, tyS := in[:strings.Index(in, ":")], in[strings.Index(in, ":")+1:]
 		ty := tInt
@@ -279,6 +285,9 @@ func (e *env) expr(x ast.Expr) (string, gty) {
 		}
 		if tyS == "err" {
 			ty = tErr
+		}
+		if tyS == "list" {
+			ty = tIntList
 		}
 		found := false
 		for _, n := range e.f.onames {
@@ -499,7 +508,8 @@ func (e *env) call(v *ast.CallExpr) (string, gty) {
 			if id.Name == e.rname {
 				// call of another translated method with a result
 				if cal, ok := e.t.funs[e.f.recv+"."+fn.Sel.Name]; ok && len(cal.resTypes) == 1 && !cal.mutates && len(v.Args) == 0 {
-					return "(" + cal.lean + " " + e.rname + ")", cal.resTypes[0]
+					e.noteLift(cal)
+					return "(" + cal.lean + " " + e.recvArg(cal) + ")", cal.resTypes[0]
 				}
 			}
 		}
@@ -662,6 +672,76 @@ func (e *env) drainLoop(sel *ast.SelectStmt, ind string) string {
 	}
 	sb.WriteString(e.block(dflt.Body, "()", ind))
 	return sb.String()
+}
+
+func (e *env) noteLift(cal *tfun) {
+	if cal.view == e.f.view {
+		return
+	}
+	e.t.lifts = append(e.t.lifts, [2]string{cal.recv + cal.view, e.f.recv + e.f.view})
+}
+
+// recvArg: the receiver as the callee wants it. A callee translated over another VIEW of the same Go struct gets a
+// record built from the caller's fields (marker expanded at emission, when the callee's field set is final).
+func (e *env) recvArg(cal *tfun) string {
+	if cal.view == e.f.view {
+		return e.rname
+	}
+	return fmt.Sprintf("⟪DOWN|%s|%s|%s⟫", cal.recv+cal.view, e.f.recv+e.f.view, e.rname)
+}
+
+// recvBack: the statement that takes the callee's (possibly changed) record `cr` back into the caller's
+func (e *env) recvBack(cal *tfun, cr string, ind string) string {
+	return fmt.Sprintf("%slet %s := ⟪UP|%s|%s|%s|%s⟫\n", ind, e.rname, cal.recv+cal.view, e.f.recv+e.f.view, e.rname, cr)
+}
+
+var liftRe = regexp.MustCompile(`⟪(DOWN|UP)\|([^|⟫]*)\|([^|⟫]*)\|([^|⟫]*)(?:\|([^|⟫]*))?⟫`)
+
+// expandLifts: replaces the markers; the caller's structure gets every field of the callee's
+func (t *translator) expandLifts(text string, st map[string]*structInfo) string {
+	return liftRe.ReplaceAllStringFunc(text, func(m string) string {
+		g := liftRe.FindStringSubmatch(m)
+		kind, calleeKey, callerKey, r, cr := g[1], g[2], g[3], g[4], g[5]
+		fields := []string{}
+		var best *structInfo
+		for _, s := range st {
+			if strings.HasPrefix(calleeKey, s.name) && (best == nil || len(s.name) > len(best.name)) {
+				best = s
+			}
+		}
+		if best != nil {
+			for _, fn := range best.fields {
+				if t.used[calleeKey][fn] {
+					fields = append(fields, fn)
+				}
+			}
+		}
+		parts := []string{}
+		for _, fn := range fields {
+			if kind == "DOWN" {
+				parts = append(parts, fmt.Sprintf("%s := %s.%s", leanIdent(fn), r, leanIdent(fn)))
+			} else {
+				parts = append(parts, fmt.Sprintf("%s := %s.%s", leanIdent(fn), cr, leanIdent(fn)))
+			}
+		}
+		_ = callerKey
+		if kind == "DOWN" {
+			return "{ " + strings.Join(parts, ", ") + " }"
+		}
+		return "{ " + r + " with " + strings.Join(parts, ", ") + " }"
+	})
+}
+
+// noLeadingComments: the printer attaches a comment in front of a declaration to its text
+func noLeadingComments(s string) string {
+	for strings.HasPrefix(s, "//") {
+		i := strings.Index(s, "\n")
+		if i < 0 {
+			return ""
+		}
+		s = s[i+1:]
+	}
+	return s
 }
 
 func sortedValues(m map[string]string) []string {
@@ -909,6 +989,9 @@ func (e *env) block(stmts []ast.Stmt, fall string, ind string) string {
 					if ty == tBool || ty == tPtr {
 						zero = "false"
 					}
+					if len(vs.Values) == 1 && len(vs.Names) == 1 {
+						zero, _ = e.expr(vs.Values[0])
+					}
 					sb.WriteString(fmt.Sprintf("%slet %s : %s := %s\n", ind, ln, ty.lean(), zero))
 				}
 			}
@@ -920,6 +1003,12 @@ func (e *env) block(stmts []ast.Stmt, fall string, ind string) string {
 				if cal := e.mutCall(v.Rhs[0]); cal != nil {
 					id := v.Lhs[0].(*ast.Ident)
 					ln := e.setVar(id.Name, cal.resTypes[0])
+					if cal.view != e.f.view {
+						e.noteLift(cal)
+						sb.WriteString(fmt.Sprintf("%slet (cr_, %s) := %s %s\n", ind, ln, cal.lean, e.recvArg(cal)))
+						sb.WriteString(e.recvBack(cal, "cr_", ind))
+						continue
+					}
 					sb.WriteString(fmt.Sprintf("%slet (%s, %s) := %s %s\n", ind, e.rname, ln, cal.lean, e.rname))
 					continue
 				}
@@ -1051,11 +1140,23 @@ func (e *env) block(stmts []ast.Stmt, fall string, ind string) string {
 							x, _ := e.expr(a)
 							args = append(args, "("+x+")")
 						}
+						if cal.view != e.f.view {
+							e.noteLift(cal)
+							sb.WriteString(fmt.Sprintf("%slet cr_ := %s %s %s\n", ind, cal.lean, e.recvArg(cal), strings.Join(args, " ")))
+							sb.WriteString(e.recvBack(cal, "cr_", ind))
+							continue
+						}
 						sb.WriteString(fmt.Sprintf("%slet %s := %s %s %s\n", ind, e.rname, cal.lean, e.rname, strings.Join(args, " ")))
 						continue
 					}
 					if cal, ok := e.t.funs[e.f.recv+"."+sel.Sel.Name]; ok && len(cal.resTypes) == 0 && len(call.Args) == 0 {
 						if cal.mutates {
+							if cal.view != e.f.view {
+								e.noteLift(cal)
+								sb.WriteString(fmt.Sprintf("%slet cr_ := %s %s\n", ind, cal.lean, e.recvArg(cal)))
+								sb.WriteString(e.recvBack(cal, "cr_", ind))
+								continue
+							}
 							sb.WriteString(fmt.Sprintf("%slet %s := %s %s\n", ind, e.rname, cal.lean, e.rname))
 						}
 						continue
@@ -1076,6 +1177,42 @@ func (e *env) block(stmts []ast.Stmt, fall string, ind string) string {
 			if e.ifReturns(switchToIf(v)) {
 				return sb.String()
 			}
+		case *ast.RangeStmt:
+			// `for _, op := range batch { total += int(op.Cost()) }` over a list input: a fold; inside the body
+			// `<op>.Cost()` is the element
+			if v.Key == nil || e.t.p.str(v.Key) != "_" || v.Value == nil {
+				e.fail("range statement shape")
+			}
+			lst, lty := e.expr(v.X)
+			if lty != tIntList {
+				e.fail("range over %s", e.t.p.str(v.X))
+			}
+			if hasReturn(v.Body.List) {
+				e.fail("return inside a range loop")
+			}
+			as := map[string]bool{}
+			e.assigned(v.Body.List, as)
+			names := []string{}
+			for nm := range as {
+				if nm == e.rname {
+					e.fail("range body changes the receiver")
+				}
+				if _, ok := e.vars[nm]; ok {
+					names = append(names, e.lnames[nm])
+				}
+			}
+			sort.Strings(names)
+			if len(names) != 1 {
+				e.fail("range body must assign exactly one local")
+			}
+			el := e.t.p.str(v.Value) + "_Cost"
+			save := e.snapshot()
+			e.rangeElem = map[string]string{e.t.p.str(v.Value) + ".Cost()": el}
+			sb.WriteString(fmt.Sprintf("%slet %s := %s.foldl (fun %s (%s : Int) =>\n", ind, names[0], lst, names[0], el))
+			sb.WriteString(e.block(v.Body.List, names[0], ind+"    "))
+			sb.WriteString(fmt.Sprintf("%s  ) %s\n", ind, names[0]))
+			e.rangeElem = nil
+			e.restore(save)
 		case *ast.SendStmt:
 			// `r.f <- x` as a statement: one more token (on a full channel the goroutine would block: the theorems about
 			// such a definition carry `tokens < capacity` as a hypothesis)
@@ -1221,7 +1358,13 @@ func (e *env) ifStmt(v *ast.IfStmt, rest []ast.Stmt, fall string, ind string) st
 	var c string
 	if cal := e.mutCall(v.Cond); cal != nil && cal.resTypes[0] == tBool {
 		// `if r.f() {` where f changes the receiver: the call first, then the test of its result
-		sb.WriteString(fmt.Sprintf("%slet (%s, cond_) := %s %s\n", ind, e.rname, cal.lean, e.rname))
+		if cal.view != e.f.view {
+			e.noteLift(cal)
+			sb.WriteString(fmt.Sprintf("%slet (cr_, cond_) := %s %s\n", ind, cal.lean, e.recvArg(cal)))
+			sb.WriteString(e.recvBack(cal, "cr_", ind))
+		} else {
+			sb.WriteString(fmt.Sprintf("%slet (%s, cond_) := %s %s\n", ind, e.rname, cal.lean, e.rname))
+		}
 		c = "cond_"
 	} else {
 		c, _ = e.expr(v.Cond)
@@ -1448,7 +1591,7 @@ func (t *translator) translate(sp tspec) (res *tfun, why string) {
 				list = b.Body
 			}
 			for i, st := range list {
-				if strings.HasPrefix(t.p.str(st), sp.sliceAt) && strings.Contains(t.p.str(st), sp.sliceHas) && i+sp.sliceN <= len(list) {
+				if strings.HasPrefix(noLeadingComments(t.p.str(st)), sp.sliceAt) && strings.Contains(t.p.str(st), sp.sliceHas) && i+sp.sliceN <= len(list) {
 					found = list[i : i+sp.sliceN]
 					return false
 				}
@@ -1645,6 +1788,26 @@ func (t *translator) emit(specs []tspec, sb *strings.Builder) {
 		f, why := t.translate(sp)
 		items = append(items, item{sp, f, why})
 	}
+	// a caller's structure includes the fields of the callees it lifts (to a fixpoint)
+	for changed := true; changed; {
+		changed = false
+		for _, l := range t.lifts {
+			for fn := range t.used[l[0]] {
+				if t.used[l[1]] == nil {
+					t.used[l[1]] = map[string]bool{}
+				}
+				if !t.used[l[1]][fn] {
+					t.used[l[1]][fn] = true
+					changed = true
+				}
+			}
+		}
+	}
+	for _, it := range items {
+		if it.f != nil {
+			it.f.text = t.expandLifts(it.f.text, t.structs)
+		}
+	}
 	recvs := []string{}
 	seen := map[string]bool{}
 	for _, it := range items {
@@ -1695,6 +1858,10 @@ func transAll(v1, v2 *pkg) string {
 		{file: "batcher.go", recv: "Batcher", name: "NeedsCapacity", lean: "v1_NeedsCapacity"},
 		{file: "batcher.go", recv: "Batcher", name: "Start", lean: "v1_capacityArm", sliceAt: "if r.ratelimiter != nil {", sliceHas: "r.NeedsCapacity()", sliceN: 1, sliceOut: []string{"giveMeCalled", "giveMeArg"},
 			inputs: map[string]string{"r.ratelimiter != nil": "limited:bool"}, captureCalls: map[string]string{"r.ratelimiter.GiveMe": "giveMe"}},
+		{file: "batcher.go", recv: "Batcher", name: "Enqueue", lean: "v1_enqueueTail", view: "_enq", sliceAt: "r.incTarget(int(op.Cost()))", sliceN: 4,
+			inputs: map[string]string{"op.Cost()": "cost:int", "r.errorOnFullBuffer": "errorOnFull:bool"}, chanCap: map[string]string{"buffer": "in:bufCap"}},
+		{file: "batcher.go", recv: "Batcher", name: "Start", lean: "v1_finishTail", sliceAt: "var total int = 0", sliceN: 3,
+			sliceOut: []string{"total"}, inputs: map[string]string{"batch": "costs:list"}},
 		{file: "batcher.go", recv: "Batcher", name: "Stop", lean: "v1_Stop", view: "_st",
 			inputs: map[string]string{"r.stop != nil": "hasStop:bool"}, captureCalls: map[string]string{"close": "closeStop", "r.shutdown.Wait": "wait"}},
 		{file: "batcher.go", recv: "Batcher", name: "Pause", lean: "v1_Pause", view: "_pz", chanCap: map[string]string{"pause": "1"}},
@@ -1738,6 +1905,8 @@ func transAll(v1, v2 *pkg) string {
 		{file: "batcher.go", recv: "batcher", name: "confirmInflightIsZero", lean: "v2_confirmInflightIsZero", view: "_slots", chanCap: map[string]string{"inflight": "maxConcurrentBatches"}},
 		{file: "batcher.go", recv: "batcher", name: "Inflight", lean: "v2_Inflight", view: "_slots", chanCap: map[string]string{"inflight": "maxConcurrentBatches"}},
 		{file: "batcher.go", recv: "batcher", name: "Pause", lean: "v2_Pause", view: "_pz", chanCap: map[string]string{"pause": "1"}},
+		{file: "batcher.go", recv: "batcher", name: "processBatch", lean: "v2_finishTail", view: "_fin", sliceAt: "var total int = 0", sliceN: 4,
+			sliceOut: []string{"total"}, inputs: map[string]string{"batch": "costs:list"}},
 		{file: "batcher.go", recv: "batcher", name: "resume", lean: "v2_resume", view: "_ph"},
 		{file: "batcher.go", recv: "batcher", name: "Start", lean: "v2_pauseArm", view: "_ph", sliceAt: "r.Emit(PauseEvent", sliceN: 4, sliceOut: []string{"sleepCalled", "sleepArg"},
 			inputs: map[string]string{"r.pauseTime": "pauseTime:int"}, captureCalls: map[string]string{"time.Sleep": "sleep"}},
